@@ -253,8 +253,12 @@ def run(ctx):
             fn = (b.meta.get("owner") or b.meta).get("name") or b.defpath.split("::{")[0].split("::")[-1]
             a = describe_operand(b, c.args[1])
             a2 = a.replace("SubWithOverflow(", "Sub(", 1)
-            good = (a2.startswith("Sub(len(") and "len(" in a2[8:]) or (a2.startswith("Sub(location_offset(") and "location_offset(" in a2[20:])
-            r.check(good, "%s/advance=parser-consumption" % fn, c.loc(), "advance(%s): the difference between input and remainder" % a[:70], "advance(%s) is not the amount the parser consumed" % a[:80])
+            # both measures are taken on the string that was handed to the parser (the valid UTF-8 prefix returned by read_utf8),
+            # never on the raw buffer, which may end with the first bytes of a character that was held back
+            len_form = a2.startswith("Sub(len(") and "len(" in a2[8:] and a2.startswith("Sub(len(branch(read_utf8(") or (a2.startswith("Sub(len(") and "read_utf8(" in a2.split(", len(")[0])
+            off_form = a2.startswith("Sub(location_offset(") and "location_offset(" in a2[20:]
+            good = len_form or off_form
+            r.check(good, "%s/advance=parser-consumption" % fn, c.loc(), "advance(%s): the difference between input and remainder" % a[:70], "advance(%s) is not (length of the string given to the parser) - (length of its remainder): measured on the raw buffer it also skips the bytes of a multi-byte character that read_utf8 held back" % a[:80])
         rp = [b for b in rc.all_bodies() if b.defpath.endswith("async_parser::run_parser::{closure#0}")]
         if len(rp) != 1:
             raise AnchorMissing("run_parser")
